@@ -4,6 +4,11 @@ import Apko.Proofs.Lemmas.FSData
 import Apko.Proofs.Lemmas.FSInvStep
 import Apko.Proofs.Lemmas.FSShape
 import Apko.Proofs.Lemmas.FSCount
+import Apko.Proofs.Lemmas.FSTree
+import Apko.Proofs.Lemmas.FSDirBit
+import Apko.Proofs.Lemmas.FSWalk
+import Apko.Proofs.Lemmas.FSSub
+import Apko.Proofs.Lemmas.TarWalk
 import Apko.Generated.FS
 /-! C17 — the virtual file systems behave like a file system (theorems over `Model/FS.lean`) -/
 namespace Apko.C17
@@ -387,19 +392,136 @@ theorem resolve_loop_detection (fs : FS) (d : Nat) (p : Text) (i : Ino) (n : Nat
   unfold CountOK at this
   omega
 
-/-! ### statements kept at full strength but not proved here -/
+/-! ### the node graph is a tree whose edges carry valid names (round 2: after the repairs F17g, F17h) -/
+
+/-- a well-formed state: the structural invariant, the `ModeDir` bit only on directories, tree shape -/
+def WF (fs : FS) : Prop := Inv fs ∧ DirBit fs ∧ Tree fs
+
+theorem wf_empty : WF FS.empty := ⟨Inv.empty, DB.empty.toDirBit, Tree.empty⟩
+
+/-- **dirbit_step**: `inv_step`'s hypothesis `DirBit` is itself preserved by every operation whose
+permission argument carries no `ModeDir` bit (`opModeOK`: true of every call apko makes) -/
+theorem dirbit_step (c : Cfg) (fs : FS) (op : Op) (hm : opModeOK op) (hb : DirBit fs) : DirBit (step c fs op).1 :=
+  FS.dirbit_step c fs op hm hb
+
+/-- **tree_step**: every operation keeps the graph a tree with valid edge names -/
+theorem tree_step (c : Cfg) (fs : FS) (op : Op) (hi : Inv fs) (ht : Tree fs) : Tree (step c fs op).1 :=
+  FS.tree_step c fs op hi ht
+
+theorem wf_step (c : Cfg) (fs : FS) (op : Op) (hm : opModeOK op) (h : WF fs) : WF (step c fs op).1 :=
+  ⟨inv_step c fs op h.1 h.2.1, dirbit_step c fs op hm h.2.1, tree_step c fs op h.1 h.2.2⟩
+
+theorem wf_run (c : Cfg) : ∀ (ops : List Op) (fs : FS), (∀ op ∈ ops, opModeOK op) → WF fs → WF (run c fs ops).1 := by
+  intro ops
+  induction ops with
+  | nil => intro fs _ h; exact h
+  | cons op rest ih =>
+    intro fs hm h
+    simp only [run]
+    exact ih _ (fun o ho => hm o (List.mem_cons_of_mem _ ho)) (wf_step c fs op (hm op List.mem_cons_self) h)
+
+/-- every state reachable from the empty file system (memfs or tarfs, Impl or Spec) is well-formed:
+`inv_step` needs no side hypothesis on reachable states -/
+theorem wf_reachable (c : Cfg) (ops : List Op) (hm : ∀ op ∈ ops, opModeOK op) : WF (run c FS.empty ops).1 :=
+  wf_run c ops FS.empty hm wf_empty
+
+/-- **no_dot_edges** (C18's `memfs_no_dotdot_edges`): in every reachable state no directory has a child
+named `.` or `..` — nor an empty name or one containing `/`: every edge is an `io/fs.ValidPath` element,
+which is what `fs.WalkDir`'s callers (the layer writer) rely on -/
+theorem no_dot_edges (c : Cfg) (ops : List Op) (hm : ∀ op ∈ ops, opModeOK op) (i : Nat) (n : Name) (j : Nat)
+    (h : (n, j) ∈ ((run c FS.empty ops).1.node i).children) : n ≠ dot ∧ n ≠ dotdot ∧ n ≠ [] ∧ '/' ∉ n := by
+  obtain ⟨h1, h2, h3, h4⟩ := (wf_reachable c ops hm).2.2.names i n j h
+  exact ⟨h3, h4, h1, h2⟩
+
+/-- one or more directory edges lead from `i` to `j` -/
+inductive DirReach (fs : FS) : Nat → Nat → Prop
+  | edge {i j : Nat} (n : Name) : (n, j) ∈ (fs.node i).children → (fs.node j).dir = true → DirReach fs i j
+  | step {i j k : Nat} (n : Name) : DirReach fs i j → (n, k) ∈ (fs.node j).children → (fs.node k).dir = true →
+      DirReach fs i k
+
+theorem dirReach_lt {fs : FS} (ht : Tree fs) {i j : Nat} (h : DirReach fs i j) : i < j := by
+  induction h with
+  | edge n he hd => exact ht.up _ n _ he hd
+  | step n _ he hd ih => exact Nat.lt_trans ih (ht.up _ n _ he hd)
+
+/-- **no_directory_cycles**: no directory is reachable from itself through directory entries -/
+theorem no_directory_cycles {fs : FS} (ht : Tree fs) (i : Nat) : ¬ DirReach fs i i :=
+  fun h => Nat.lt_irrefl i (dirReach_lt ht h)
+
+/-- **dirs_form_a_tree**: a directory is entered in at most one directory under at most one name
+(files may have several names: hard links), in every reachable state -/
+theorem dirs_form_a_tree (c : Cfg) (ops : List Op) (hm : ∀ op ∈ ops, opModeOK op) (i1 i2 : Nat) (n1 n2 : Name) (j : Nat)
+    (h1 : (n1, j) ∈ ((run c FS.empty ops).1.node i1).children)
+    (h2 : (n2, j) ∈ ((run c FS.empty ops).1.node i2).children)
+    (hd : ((run c FS.empty ops).1.node j).dir = true) : i1 = i2 ∧ n1 = n2 :=
+  (wf_reachable c ops hm).2.2.once i1 i2 n1 n2 j h1 h2 hd
+
+/-- a hard link never adds a name to a directory: `Link` fails with `EPERM` (F17h repaired) -/
+theorem link_dir_eperm (c : Cfg) (fs : FS) (o n : Text) (pi t : Ino)
+    (hp : getNode c fs (dir n) = .ok pi) (hd : (fs.node pi).dir = true)
+    (ho : getNode c fs o = .ok t) (htd : (fs.node t).dir = true) :
+    step c fs (.link o n) = (fs, .err .perm) := by
+  simp [step, linkOp, parentOf, hp, ho, hd, htd]
+
+/-! ### the walk (`fs.WalkDir`) -/
 
 /-- component-wise lexicographic order of paths (the order of `fs.WalkDir`) -/
 def pathLt (a b : List Name) : Prop := a < b
 
-/-- `walk` lists every path once, in component-wise lexicographic order (unproved; needed by C06/C10) -/
+/-- `walk` lists every path once, in component-wise lexicographic order (needed by C06/C10) -/
 def walk_sorted_nodup : Prop :=
   ∀ fs : FS, Inv fs → (walk fs).Pairwise (fun a b => pathLt a.1 b.1)
 
-/-- in `walk` every directory precedes its contents (unproved; needed by C06/C10) -/
+/-- in `walk` every directory precedes its contents (needed by C06/C10) -/
 def walk_parents_first : Prop :=
   ∀ (fs : FS) (l1 l2 : List (List Name × Ino)) (q : List Name) (n : Name) (i : Ino),
     walk fs = l1 ++ (q ++ [n], i) :: l2 → q = [] ∨ ∃ y ∈ l1, y.1 = q
+
+/-- proved in `Lemmas/TarWalk.lean` for every state that satisfies `Inv` — no acyclicity hypothesis is
+needed for order and parents-first (a walk cut by the fuel is still sorted); acyclicity is what
+*completeness* needs, below -/
+theorem walk_sorted_nodup_holds : walk_sorted_nodup := fun fs hi => Tar.walk_sorted fs hi
+
+theorem walk_parents_first_holds : walk_parents_first :=
+  fun fs l1 l2 q n i h => Tar.walk_parents_first fs l1 l2 q n i h
+
+/-- **walk terminates without fuel tricks**: on a well-formed state the fuel of `walkFrom` is never the
+reason the walk stops — any larger fuel gives the same list -/
+theorem walk_fuel_irrelevant (fs : FS) (h : WF fs) (k : Nat) : walkFrom fs (fs.nodes.length + k) [] 0 = walk fs :=
+  FS.walk_fuel_irrelevant h.1 h.2.2 k
+
+/-- **walk_complete**: the walk lists the root's entries and, with every directory it lists, that
+directory's entries: everything reachable through directories is visited, each path once, in order -/
+theorem walk_complete (fs : FS) (h : WF fs) :
+    (∀ e ∈ readdir fs 0, ([e.1], e.2) ∈ walk fs) ∧
+    ∀ q j, (q, j) ∈ walk fs → (fs.node j).dir = true → ∀ e ∈ readdir fs j, (q ++ [e.1], e.2) ∈ walk fs :=
+  FS.walk_complete h.1 h.2.2
+
+/-- … and this is what the tree shape buys: a directory entered into itself (what `Link("a","a/x")`
+made before F17h) satisfies `Inv`, and the walk — in Go: forever; in the model: up to the fuel — is
+not complete -/
+theorem walk_complete_needs_tree : Inv selfLoop ∧ ¬ Tree selfLoop ∧
+    ¬ (∀ q j, (q, j) ∈ walk selfLoop → (selfLoop.node j).dir = true →
+        ∀ e ∈ readdir selfLoop j, (q ++ [e.1], e.2) ∈ walk selfLoop) :=
+  ⟨selfLoop_inv, selfLoop_not_tree, FS.walk_complete_needs_tree⟩
+
+/-! ### SubFS = the base file system under a prefix -/
+
+/-- **subfs_refines**: a sequence of calls through a `SubFS` with root `r` is the sequence with every
+path argument of every method rewritten by `filepath.Join(r, ·)` (`subOp_paths`; the method list is tied
+to `sub.go` by `tie_subJoins`/`tie_subPasses`), run on the base: same results, same base state -/
+theorem subfs_refines (c : Cfg) (r : Text) (ops : List Op) (fs : FS) :
+    runSub c r fs ops = run c fs (ops.map (subOp r)) ∧
+    ∀ op ∈ ops, op.isFullFS = true → (subOp r op).paths = op.paths.map (join2 r) :=
+  ⟨FS.subfs_refines c r ops fs, fun op _ h => subOp_paths r op h⟩
+
+/-- what F17i violated: a symbolic link made through a view is read back through the view -/
+theorem sub_symlink_then_readlink (b : Backend) (r : Text) (fs : FS) (hi : Inv fs) (t p : Text)
+    (hok : (stepSub (Cfg.impl b) r fs (.symlink t p)).2 = .ok .unit) :
+    (stepSub (Cfg.impl b) r (stepSub (Cfg.impl b) r fs (.symlink t p)).1 (.readlink p)).2 = .ok (.text t) :=
+  FS.sub_symlink_then_readlink (Cfg.impl b) rfl r fs hi t p hok
+
+/-! ### statements kept at full strength but not proved here -/
 
 /-- Impl resolution agrees with POSIX resolution on paths and link targets without `.`/`..` whose
 relative targets are only met under link-free prefixes (unproved; the deviation class is finding F17d,
